@@ -109,7 +109,7 @@ Section View.
                 (filter (fun p => s_arrival (snd p) <=? t - 1) act)
        else []) /\
     v_peak v = ns_peak ns /\
-    v_infra v = infra_of cfg /\
+    v_infra v = infra_at cfg t /\
     (forall p, In p act -> s_arrival (snd p) < s_departure (snd p) /\ s_arrival (snd p) < s_est (snd p)).
   Proof.
     unfold num_view. rewrite active_evs_spec. intro H. cbv zeta.
@@ -145,6 +145,19 @@ Section View.
     exists p. repeat split; auto.
     unfold session_rejected, SessionInfo_bad_departure, SessionInfo_bad_estimate in R.
     apply orb_true_iff in R. destruct R as [R|R]; apply Z.leb_le in R; auto.
+  Qed.
+
+  (* constraints in force at an invocation: the last in-place change made strictly before it *)
+  Lemma infra_at_static t : n_updates cfg = [] -> infra_at cfg t = infra_of cfg.
+  Proof. unfold infra_at, cons_at, infra_of. intros ->. reflexivity. Qed.
+
+  Lemma cons_at_spec t :
+    (forall u c, In (u, c) (n_updates cfg) -> t <= u) -> cons_at cfg t = (n_cmat cfg, n_limits cfg, n_cids cfg).
+  Proof.
+    unfold cons_at. generalize (n_cmat cfg, n_limits cfg, n_cids cfg).
+    induction (n_updates cfg) as [|[u c] r IH]; intros acc H; simpl; auto.
+    assert (L : t <= u) by (apply (H u c); left; auto).
+    destruct (u <? t) eqn:E; [apply Z.ltb_lt in E; lia|]. apply IH. intros; eapply H; right; eauto.
   Qed.
 
   Lemma sinfo_fields t ns x :
